@@ -1,6 +1,6 @@
 SPECIFICATION Spec
 CONSTANTS
-  RunLens = {0, 1, 2, 3, 4, 5, 8, 9, 16, 17, 32, 33, 40}
-  MaxRuns = 6
+  RunLens = {0, 1, 2, 3, 5, 9, 17, 33, 40}
+  MaxRuns = 5
 INVARIANTS RoundTrip StateRange NoMarker
 CHECK_DEADLOCK FALSE
